@@ -10,6 +10,8 @@ done
 git -C /repo checkout -- .
 git -C /repo clean -fdq   # patches that add files: remove them too (target/ is ignored, so untouched)
 git -C /verif checkout -- evidence 2>/dev/null
+# generated Lean tables were regenerated from the patched tree by ./check C13: regenerate from the clean tree
+python3 tools/gen_circuits.py >/dev/null 2>&1
 python3 - <<'PY'
 import glob,os
 for f in glob.glob('/verif/replays/*.json'): os.remove(f)
